@@ -193,16 +193,16 @@ func (dec *tomlDecoder) decodeNode(tomlNode *toml.Node) (*CandidateNode, error) 
 
 }
 
-func (dec *tomlDecoder) Decode() (*CandidateNode, error) {
+func (dec *tomlDecoder) Decode() (result *CandidateNode, deferredError error) {
 	if dec.finished {
 		return nil, io.EOF
 	}
 	//
 	// toml library likes to panic
-	var deferredError error
 	defer func() { //catch or finally
 		if r := recover(); r != nil {
 			var ok bool
+			result = nil
 			deferredError, ok = r.(error)
 			if !ok {
 				deferredError = fmt.Errorf("pkg: %v", r)
@@ -241,7 +241,7 @@ func (dec *tomlDecoder) Decode() (*CandidateNode, error) {
 		return nil, io.EOF
 	}
 
-	return dec.rootMap, deferredError
+	return dec.rootMap, nil
 
 }
 
